@@ -24,6 +24,9 @@ CLAIMED.update({
 CLAIMED["C19"] = dict(engine="server", technique="TLA+ model of the stream protocol (Server.tla); TLC-enumerated request sequences played on the real handler; recorded streams validated by TLC",
     text="TLC enumerates every request sequence up to the bound (history in the state) from Server.tla with one-reply-per-request and no-service-before-session as invariants; each sequence is played on the real AppEncryption.Session/streamer/defaultHandler over an in-memory stream and the recorded stream is validated by TLC: response class allowed in that state, decrypted bytes equal the original, exactly one reply per request, handler returns without panic.",
     note="in-memory stream instead of a network transport; bounded sequence length (5 quick / 6 thorough) plus random longer sequences on concurrent streams; SDK behaviour behind the handler is the in-memory metastore + static KMS", ref="5/C19, 4.6")
+CLAIMED["C06"] = dict(engine="partition", technique="TLA+ model of key-id naming and the partition check (Partition.tla) evaluated by TLC over a token-built id universe; every pair executed on real sessions; outcomes validated by TLC",
+    text="TLC evaluates the isolation predicate over every ordered pair of partition ids of a universe built from tokens that embed the separator, the _service_product suffix and region suffixes, for plain and region-suffixed naming on both sides; each pair is then executed for real (the producing session encrypts, the other session decrypts against the shared metastore) and TLC validates that no foreign record ever yields plaintext, own records decrypt, and empty ids are refused.",
+    note="bounded id universe (<=2 tokens quick / <=3 tokens thorough); one service/product; region names without underscores", ref="5/C06, 4.6")
 PENDING = {}
 
 def main():
